@@ -636,6 +636,28 @@ MODEL_PIX_ABS, MODEL_PIX_SLOPE = 0.03, 0.5    # worst-pixel bound: 3 % + half th
 MODEL_COVERAGE_TOL = 1.0     # EVERY pixel of the region must be filled by the model
 
 
+def sector_bias(p, sma):
+    """For the area integrators ('mean', 'median') an isophote's intensity is the law averaged over sectors of
+    the annulus between the bounding ellipses of geometry.bounding_ellipses (sma -+ astep/2, linear growth;
+    sma (1 -+ astep/2), geometric), area-weighted; on an exactly elliptical galaxy the angular width is
+    irrelevant.  Returns the rigorous relative difference |<f>_annulus - f(sma)| / f(sma) computed from the known
+    law (0 for the point samplers 'bilinear' / 'nearest_neighbor'); it is ADDED to the intensity tolerance, which
+    also covers the integrators' fall-back to bilinear sampling on small sectors; for the median: the law at the
+    radius that halves the annulus area."""
+    if p.get('integr') not in ('mean', 'median') or sma <= 0:
+        return 0.0
+    f = radial(p['law'], p['scale'])
+    h = p['step'] / 2.0 if p['lin'] else sma * p['step'] / 2.0
+    a = np.linspace(max(sma - h, 0.0), sma + h, 401)
+    fa = f(a)
+    mean = float(np.sum(fa * a) / np.sum(a))
+    f0 = float(f(sma))
+    # mean: the area-weighted average; median of a monotone law: its value at the radius that halves the area
+    a_med = math.sqrt((a[0] ** 2 + a[-1] ** 2) / 2.0)
+    dev = abs(mean - f0) if p['integr'] == 'mean' else abs(float(f(a_med)) - f0)
+    return dev / f0
+
+
 def describes_image(p, iso):
     """The isophote agrees with the true galaxy (centre, eps, PA, mean intensity) within the tolerances of the
     recovery clause, max(small absolute tolerance, 5 x reported error) - whatever its stop code."""
@@ -648,7 +670,8 @@ def describes_image(p, iso):
     return (math.hypot(iso.x0 - p['x0'], iso.y0 - p['y0']) <= max(0.25, 5 * math.hypot(z(iso.x0_err), z(iso.y0_err)))
             and abs(iso.eps - p['eps']) <= max(0.03, 5 * z(iso.ellip_err))
             and angdiff(iso.pa, p['pa']) <= max(0.02 / e0, 5 * z(iso.pa_err))
-            and abs(iso.intens - truth) / truth <= max(0.03, 5 * z(iso.int_err) / abs(iso.intens)))
+            and abs(iso.intens - truth) / truth <= max(0.03 + sector_bias(p, iso.sma),
+                                                       5 * z(iso.int_err) / abs(iso.intens)))
 
 
 def model_residual(p, obs):
@@ -804,7 +827,8 @@ def recovery(p, obs):
     profiles are not resolved by any interpolation), inside the frame and within 3.5 scale radii.
     Tolerance rule of the property: |fit - truth| <= max(small absolute tolerance, 5 x reported
     error), absolute tolerances 0.25 pixel (centre), 0.03 (eps), 0.02/eps rad (PA), 3 % (intensity);
-    nearest-neighbour mode (whole-pixel sampling): 0.5 pixel, 0.05, 3 % + a quarter pixel of minor-axis slope.
+    nearest-neighbour mode (whole-pixel sampling): 0.5 pixel, 0.05, 3 % + a quarter pixel of minor-axis slope;
+    mean / median modes: 3 % + sector_bias (the law averaged over the integration annulus vs the law at sma).
     Also returns the numbers of converged / all isophotes at well-sampled radii.
     Returns (n_checked, gross, worst ratios)."""
     il = obs['isolist']
@@ -843,7 +867,7 @@ def recovery(p, obs):
         rc = dc / max(0.5 if nn else 0.25, 5 * math.hypot(iso.x0_err, iso.y0_err))
         re_ = de / max(0.05 if nn else 0.03, 5 * iso.ellip_err)
         rp = dp / max(0.02 / e0, 5 * iso.pa_err)
-        ri = di / max(0.03 + (0.25 * slope if nn else 0.0), 5 * iso.int_err / abs(iso.intens))
+        ri = di / max(0.03 + (0.25 * slope if nn else 0.0) + sector_bias(p, iso.sma), 5 * iso.int_err / abs(iso.intens))
         worst['cen'] = max(worst['cen'], rc)
         worst['eps'] = max(worst['eps'], re_)
         worst['pa'] = max(worst['pa'], rp)
